@@ -681,7 +681,7 @@ def describe():
                  "directory = project root or a sub-directory, ./-prefixed spellings, documents using a cyclic component "
                  "appended last or run alone). Oracles: per-source outputs/acceptance/diagnostic multiset equal across "
                  "schedules; <customwidgets> equals the model as a set with no class twice; base-class properties present; "
-                 "every invocation ends within the step bound with exit 0 or 1. distinct_nontrivial counts distinct projects. History phase at the end of every project: the root class of a used component is rewritten (same-length names preferred), all documents are translated again over the old outputs (together, then one by one) and compared with a clone that never held outputs."),
+                 "every invocation ends within the step bound with exit 0 or 1. distinct_nontrivial counts distinct projects. History phase at the end of every project: the root class of a used component is rewritten (same-length names preferred), all documents are translated again over the old outputs (together, then one by one) and compared with a clone that never held outputs. 30% of the schedules are re-run in a clone with an EIO on one directory listing (exit 0 only with the fault-free outputs)."),
         "fingerprint": "directories | components | sources | custom-widget uses | longest chain | cycle | file list",
         "components": {
             "real": ["qmluic generate-ui release binary built from /repo working tree (qmldir discovery, type map, uigen)", "contrib/metatypes/*.json", "kernel file system (tmpfs)"],
